@@ -13,7 +13,7 @@ from symx.stubs import Energies, Line, LineEngine, SymRng, orders_of, tags_of
 
 logging.disable(logging.CRITICAL)
 
-PROPERTIES = ["C11", "C09"]
+PROPERTIES = ["C11", "C09", "C07"]
 EXPLANATION = ("H11: run_md -> select_shoot -> retis_swap_zero / quantis_swap_zero (+ high_acc_swap, compute_weight, "
                "paste_paths, calc_cv_vector) executed with deterministic time-reversible line engines: each old path lies on a "
                "symbolic bi-infinite order sequence, propagation walks along it through the REAL add_to_path; order values, "
@@ -52,6 +52,9 @@ def bounds(tier, prop):
 
 def instances(tier, prop):
     out = _instances(tier, prop)
+    if prop == "C07":
+        # only the hand-over of the job's engine streams (select_shoot) is of interest: the smallest instances suffice
+        out = [s for s in out if s["L0"] + s["L1"] <= 6 and s.get("moves", ["sh", "sh"]) == ["sh", "sh"] and s.get("var", "plain") == "plain"]
     if prop == "C09":
         # C09 speaks about zero-swap moves too (accept <=> ACC, membership, rejection changes nothing): a subset suffices
         out = [s for s in out if s["L0"] + s["L1"] <= 6 or s["kind"] == "quantis"]
@@ -90,6 +93,8 @@ P = "C11"
 
 
 def expect(tier, prop):
+    if prop == "C07":
+        return ["retis:ACC", "quantis:ACC"]
     return EXPECT
 
 
@@ -211,6 +216,8 @@ def _retis(ctx, sh):
     status = md["status"]
     _, accept, st2, pstat = call
     ctx.cover("retis:" + status)
+    ctx.check(eng0.rgen == "S0" and eng1.rgen == "S1", "C07:zero-swap-engines-get-their-own-job-streams",
+              f"[0-] engine has {eng0.rgen!r}, [0+] engine has {eng1.rgen!r}")
     ctx.check(accept == (status == "ACC") and st2 == status, f"{P}:zero-swap-accept-iff-status-ACC", f"{accept} {status}")
     ctx.check(_same(old0, s0) and _same(old1, s1), f"{P}:zero-swap-old-paths-untouched")
     n0, n1 = md["picked"][-1]["traj"], md["picked"][0]["traj"]
@@ -285,6 +292,8 @@ def _quantis(ctx, sh):
     status = md["status"]
     _, accept, st2, pstat = call
     ctx.cover("quantis:" + status)
+    ctx.check(eng0.rgen == "S0" and eng1.rgen == "S1", "C07:zero-swap-engines-get-their-own-job-streams",
+              f"[0-] engine has {eng0.rgen!r}, [0+] engine has {eng1.rgen!r}")
     ctx.check(accept == (status == "ACC") and st2 == status, f"{P}:zero-swap-accept-iff-status-ACC", f"{accept} {status}")
     ctx.check(_same(old0, s0) and _same(old1, s1), f"{P}:zero-swap-old-paths-untouched")
     if var == "noenergy":
